@@ -129,12 +129,12 @@ deriving DecidableEq, Repr, Inhabited
 
 /-- what task bodies observe (compared with the execution log of the real bodies) -/
 inductive Ev where
-  | start (tag : List Nat)
+  | start (a : Addr) (tag : List Nat)
   | spawn (tag : List Nat) (k : Nat) (m : Nat)
   | saw (tag : List Nat) (k : Nat) (v : Val)
   | cancel (tag : List Nat) (k : Nat)
   | raise (tag : List Nat)
-  | ret (tag : List Nat) (v : Val)
+  | ret (a : Addr) (tag : List Nat) (v : Val)
 deriving DecidableEq, Repr
 
 structure Worker where
@@ -335,7 +335,7 @@ def runBody (tbl : Table) : Nat → Run → Run × Outcome
     | .raise => ({ r with evs := r.evs ++ [Ev.raise t.tag] }, .err eDslRaise false)
     | .ret =>
       let v : Val := [0, t.tag.length] ++ t.tag ++ [t.prog, t.seen.length] ++ t.seen.flatten
-      ({ r with evs := r.evs ++ [Ev.ret t.tag v] }, .done v)
+      ({ r with evs := r.evs ++ [Ev.ret t.addr t.tag v] }, .done v)
 
 /-- the clean-up loop at the end of `_process_task_completion`:
     `for mailbox_id in self._active_task.owned_mailboxes:` while `cancel` removes from that
@@ -353,18 +353,22 @@ def completionLoop : Nat → Nat → Run → Run × Bool
         else completionLoop fuel (i + 1) (r.cancelBox m b)
       | none => (r, true)           -- Worker.cancel: self._mailboxes[...] KeyError
 
+/-- `_process_task_completion` up to the clean-up loop: ship the result (locally: deposit it
+    and tell the boss with UPDATE(-1)), remove the task from `_tasks` -/
+def completionEnter (r : Run) (v : Val) : Run :=
+  if r.t.addr.w = r.w.id then
+    { r with w := { (r.w.handleResult r.t.addr v) with
+                    tasks := taskErase (r.w.handleResult r.t.addr v).tasks r.t.addr },
+             out := r.out ++ [Msg.update (-1)] }
+  else
+    { r with w := { r.w with tasks := taskErase r.w.tasks r.t.addr },
+             out := r.out ++ [Msg.result r.t.addr v r.w.id] }
+
 /-- `_process_task_completion`; the Bool says "raised outside task code" -/
 def processCompletion (r : Run) (v : Val) : Run × Bool :=
-  let t := r.t
-  match taskGet r.w.tasks t.addr with
+  match taskGet r.w.tasks r.t.addr with
   | none => (r, false)
-  | some _ =>
-    let r1 : Run :=
-      if t.addr.w = r.w.id then
-        { r with w := r.w.handleResult t.addr v, out := r.out ++ [Msg.update (-1)] }
-      else { r with out := r.out ++ [Msg.result t.addr v r.w.id] }
-    let r2 := { r1 with w := { r1.w with tasks := taskErase r1.w.tasks t.addr } }
-    completionLoop (t.owned.length + 1) 0 r2
+  | some _ => completionLoop (r.t.owned.length + 1) 0 (completionEnter r v)
 
 /-- `_process_await`; `none` = RuntimeError('Cannot await on a canceled task.') -/
 def processAwait (r : Run) (m : Nat) (nxt : Bool) : Option Run :=
@@ -418,12 +422,12 @@ def Task.awaitedK (tbl : Table) (t : Task) : Nat :=
 /-- `task.step(send_val)` up to the point where the coroutine resumes: reset the await flags,
     hand the awaited value to the body -/
 def resume (tbl : Table) (t1 : Task) (val : Option Val) : Task × List Ev :=
-  let t2 := { t1 with wakeNext := false, desired := none }
-  let evs0 : List Ev := if t2.started then [] else [Ev.start t2.tag]
-  if t2.atAwait then
+  let t2 := { t1 with wakeNext := false, desired := none, started := true }
+  let evs0 : List Ev := if t1.started then [] else [Ev.start t1.addr t1.tag]
+  if t1.atAwait then
     ({ t2 with seen := t2.seen ++ [val.getD [9]], pc := t2.pc + 1, atAwait := false },
      evs0 ++ [Ev.saw t2.tag (t2.awaitedK tbl) (val.getD [9])])
-  else ({ t2 with started := true }, evs0)
+  else (t2, evs0)
 
 /-- what `_try_step_next_ready_task` does after the coroutine stopped -/
 def finishStep (r : Run) : Outcome → StepOut
